@@ -88,7 +88,7 @@ example : join '&' (render (dropTrailing (groupsByName "CWE" (parseKids "CWE" 0 
   · simp [splitOn, NoTrailingEmpty]
 
 /-- the model's own segment parser and encoder on a concrete canonical segment (kernel-evaluated) -/
-example : (do let s ← Pe.segment Hl7.Gen.V2_5 Defaults.std "PID|1||A^B&C~D||X^Y".toList EC.default false
+example : (do let s ← Pe.segment Hl7.Gen.V2_5 "PID|1||A^B&C~D||X^Y".toList EC.default false
               Pe.encSegment Hl7.Gen.V2_5 EC.default s) = .ok "PID|1||A^B&C~D||X^Y".toList := by
   decide +kernel
 
